@@ -13,7 +13,9 @@ symbolic parts as `Fmt(parts)`; this theory keeps the remaining string operation
 `evaluates_to(text, value)` is the axiomatisation of python evaluation of an expression text, restricted to the forms
 the emitters use (everything else is "does not evaluate to it"):
 
-    E1  eval(repr(v)) == v          for v: None, bool, int, float, str, list of those, Timestamp / Timedelta (with the import)
+    E1  eval(repr(v)) == v          for v: None, bool, int, FINITE float, str, list of those, Timestamp / Timedelta (with the import);
+                                    the repr of inf / -inf / nan is a NAME (`inf`, `nan`) that evaluates to nothing
+    E6  eval('float("' + str(v) + '")') == v   for every float v (the non-finite ones included)
     E2  eval(str(v))  == v          for v: None, bool, int, float, list of scalars     (str == repr on these)
     E3  eval(q + s + q) == s        for a quote character q and a str s that contains no q, no backslash, no line break
                                     (sufficient; strings with q / an escape sequence / a line break do break - witnesses replayed)
@@ -160,6 +162,30 @@ def identical(a, b):
     return py_eq(a, b)
 
 
+_is_finite_float = z3.Function("float_is_finite", z3.RealSort(), z3.BoolSort())
+
+
+def finite(v):
+    """v is not one of the floats inf / -inf / nan.  Symbolic reals stand for floats: whether one of them is a non-finite float is an
+    uninterpreted predicate of the value (mathematical reals have no such element; the contracts must not assume it away)."""
+    import math
+
+    if isinstance(v, bool):
+        return True
+    if isinstance(v, float):
+        return math.isfinite(v)
+    if isinstance(v, SNum) and v.z.sort() == z3.RealSort():
+        return SBool(_is_finite_float(v.z))
+    return True
+
+
+def float_call_form(t):
+    """Fmt(['float("', v, '")']) -> v"""
+    if isinstance(t, Fmt) and not isinstance(t, Txt) and len(t.parts) == 3 and t.parts[0] == 'float("' and t.parts[2] == '")':
+        return t.parts[1]
+    return None
+
+
 def quoted_form(t):
     """Fmt([q, s, q]) -> (q, s)"""
     if isinstance(t, Fmt) and not isinstance(t, Txt) and len(t.parts) == 3 and t.parts[0] == t.parts[2] and t.parts[0] in ("'", '"'):
@@ -178,7 +204,11 @@ def evaluates_to(text, want, any_text=True):
         v = text.value
         if not isinstance(v, REPR_EVALUABLE):
             return False, f"E1 does not cover repr of {type(v).__name__}"
-        return identical(v, want), "E1 repr"
+        return And(identical(v, want), finite(v)), "E1 repr"
+    fv = float_call_form(text)
+    if fv is not None:
+        is_float = isinstance(fv, float) or (isinstance(fv, SNum) and fv.z.sort() == z3.RealSort())
+        return (identical(fv, want) if is_float else False), "E6 float(str(v))"
     q = quoted_form(text)
     if q is not None:
         qc, s = q
@@ -261,6 +291,9 @@ def install(I):
 
     I.getattr = getattr_
     I.models[id(builtins.repr)] = lambda I, v: make_repr(v)
+    import math
+
+    I.models[id(math.isfinite)] = lambda I, v: finite(v)
 
     orig_setitem = I.setitem
 
@@ -327,6 +360,16 @@ def selftest():
         ax("E1 eval(repr(v)) == v", eval(repr(v)) == v and type(eval(repr(v))) is type(v), repr(v))
         if not isinstance(v, str):
             ax("E2 eval(str(v)) == v", eval(str(v)) == v, repr(v))
+    for v in (float("inf"), float("-inf"), float("nan")):
+        try:
+            r = eval(repr(v), {})
+        except NameError as e:
+            r = e
+        ax("E1 does not hold for a non-finite float: its repr is a name", isinstance(r, NameError), repr(v))
+        back = eval('float("' + str(v) + '")', {})
+        ax("E6 eval('float(\"' + str(v) + '\")') == v", back == v or (back != back and v != v), repr(v))
+    for v in (1.5, -2.0, 1e300):
+        ax("E6 eval('float(\"' + str(v) + '\")') == v", eval('float("' + str(v) + '")', {}) == v, repr(v))
     env = {"Timestamp": pd.Timestamp, "Timedelta": pd.Timedelta}
     for v in (pd.Timestamp("2020-01-01 00:00:00.5"), pd.Timestamp(3), pd.Timedelta(1000), pd.Timedelta(1, unit="D")):
         ax("E1 eval(repr(v)) == v with the pandas import", eval(repr(v), dict(env)) == v, repr(v))
